@@ -73,6 +73,12 @@ class Sign:
                 return True
             if f == "max" and any(self.nonneg(a, depth + 1) for a in e.args):
                 return True
+            if f == "sum" and len(e.args) == 1:
+                g = e.args[0]
+                if isinstance(g, (ast.GeneratorExp, ast.ListComp)) and self.nonneg(g.elt, depth + 1):
+                    return True
+                if isinstance(g, ast.Call) and dotted(g.func) == "map" and g.args and norm(g.args[0]) == "len":
+                    return True
             if isinstance(e.func, ast.Attribute) and e.func.attr in ("end", "start") and not e.args:
                 return True
         if isinstance(e, ast.BinOp) and isinstance(e.op, ast.Add):
@@ -357,9 +363,9 @@ def run(ctx: Ctx):
         "capture group with the same shift, and group 1 participates in every match of every generated pattern; R-C02-3 span()/full_span()/"
         "span_with_pincite() have the fallback / min-max structure that makes them nested; R-C02-4 sign analysis of every span override: end overrides "
         "are a base end plus a non-negative amount (len, m.end(), max(.,0), end-start of one match, a guarded length difference), start overrides a base "
-        "start minus one, and the None end of extract_pin_cite is on an infeasible path (its pattern is nullable).  NOT decided: that offsets computed "
-        "from match positions and summed word lengths land on the right characters (values), the party-name length estimate in add_defendant, markup "
-        "round trips."
+        "start minus one, and the None end of extract_pin_cite is on an infeasible path (its pattern is nullable); R-C02-5 the backward party scan "
+        "subtracts exactly the summed width of the words it walked over (so the full-span start is a real position of the text, never before 0 "
+        "or inside the plaintiff).  NOT decided: that offsets computed from match positions land on the right characters (values), markup round trips."
     )
     ctx.trusted = ["the checker", "re._parser", "regex match positions satisfy 0 <= start <= end <= len(searched text)"]
     ctx.assumptions = ["tokens carry correct offsets (C12)"]
@@ -373,6 +379,10 @@ def run(ctx: Ctx):
     M = AnnotateModel(ctx)
     if M.bal_fn is not None:
         ctx.ob("R-C02-1", f"utils.{M.bal_fn.name}/rebased", M.bal_ok, f"positions of matches on text[a:b] are rebased by a: {M.bal_why}", node=M.bal_fn, mod=M.um)
+    from ..backscan import rule_backscan
+
+    ctx.guard(rule_backscan, ctx, "R-C02-5", False)
+    ctx.floor("R-C02-5", 6)
     ctx.floor("R-C02-2", 5)
     ctx.floor("R-C02-3", 3)
     ctx.floor("R-C02-4", 12)
